@@ -1,4 +1,5 @@
-# One entry per claimed property: how the driver runs it, and the texts that go into MANIFEST.json.
+# One entry per claimed property (tools/props.d/<ID>.py): how the driver runs it, and the texts that go into MANIFEST.json.
+import glob, os
 PROPS = {}
 
 
@@ -8,43 +9,5 @@ def P(pid, **kw):
     PROPS[pid] = kw
 
 
-P('C17', shards=8, fuzz=[('FuzzResolve', 30)],
-  technique='property-based testing (rapid) + exhaustive small-scope enumeration + native coverage-guided fuzzing; oracle: lexical containment and join identity',
-  text='Every generated (base, url path) pair is resolved by the real ResolveUrlPath and judged by an independent lexical '
-       'containment oracle and the join identity; all url paths of length <= 8 over {/ . a \\} x 14 bases are enumerated completely, '
-       'millions of random hostile paths and bases are sampled, and a native fuzz campaign searches for more. Exploration, not proof.',
-  note='Trusts the harness oracle (lexical resolver of ~20 lines) and POSIX path semantics; symlink resolution is outside the statement.',
-  design='3/C17')
-
-P('C16', shards=8, fuzz=[('FuzzEscape', 30)],
-  technique='property-based testing (rapid) + exhaustive enumeration over the shell metacharacters + native fuzzing; oracles: POSIX word-reader model and differential runs through real dash and bash',
-  text='Every generated string is escaped by both functions; an independent reader of POSIX quoting must see exactly one literal word with the input as value, '
-       'and the real dash and bash must receive exactly one argument equal to the input (batched scripts, mismatches bisected to one input). '
-       'All strings up to length 5 over the 15 special symbols are enumerated completely; random non-NUL byte strings up to 200 bytes are sampled. Exploration, not proof.',
-  note='Trusts the word-reader model (about 80 lines), dash 0.5 / bash 5 as installed with LC_ALL=C, and that printf %s\\0 reports arguments faithfully.',
-  design='3/C16')
-
-P('C11', shards=16, fuzz=[('FuzzHistory', 45)],
-  technique='model-based stateful property testing (rapid state machine vs a set-of-prefixes reference model) + native fuzzing of byte-decoded histories',
-  text='Generated Add/Remove/bulk-add/invalid-argument histories (a third of them preloaded to sit at the 256-entry list-to-map switch with removed slots) run against the real filter and a '
-       'set-of-prefixes model; after every step boundary addresses (first, last, outside neighbours) of touched and sampled prefixes and random addresses are probed in 4-byte and 16-byte form, '
-       'and the full probe set at the end. Exploration, not proof.',
-  note='Trusts the 15-line reference model; real IPv6 addresses as Contains arguments and the mixed form (16-byte IP with 4-byte mask) are outside the statement.',
-  design='3/C11')
-
-P('C04', shards=16, fuzz=[('FuzzDispatch', 45)],
-  technique='property-based differential testing against a reference router (candidate-set filtering over the flat route list) + exhaustive small-scope enumeration of tables x paths + native fuzzing',
-  text='Generated route tables (literals, :params, *, repeated/trailing slashes, all methods) are registered on the real Mux; every generated request (arbitrary path strings incl. "", "*", // runs, '
-       'trailing slashes, :x and * segments, unknown/empty methods) must invoke exactly one handler, never panic, and select the route and bindings of an independent reference router written from the '
-       'documented precedence. All tables of <= 3 routes over a small alphabet x all paths of <= 4 segments are enumerated completely in the thorough tier. Exploration, not proof.',
-  note='Trusts the reference router (about 100 lines). Tables containing registrations that panic are out of scope; for paths without a leading slash only "exactly one handler, no panic" is asserted.',
-  design='3/C04')
-
-P('C05', shards=16,
-  passes=[{'race': False, 'run': '^(TestSequential|TestRegression)$', 'env': {'GOMAXPROCS': 1}}, {'race': True, 'run': '^TestWithBursts$'}],
-  technique='model-based stateful property testing (rapid state machine over one long-lived Mux; oracle: same request on a fresh Mux + reference router; ID uniqueness invariant), concurrent bursts under the race detector',
-  text='Generated histories of registrations, matching / non-matching / panicking requests and concurrent bursts run on one long-lived Mux (single goroutine, so sync.Pool hands the same Store back; reuse is observed by pointer identity). '
-       'What the relay (before/after), the route handler and the no-route handler see - Store.I, every parameter lookup for every name of the table, RouteParamAny, the initial status, the request ID - must equal the same request on a fresh Mux '
-       'and the reference router; IDs must be constant within and unique across requests; no accessor may panic. Bursts run under -race. Exploration, not proof.',
-  note='Trusts the reference router and the fresh-Mux comparison; concurrent interleavings are sampled by the Go scheduler, not enumerated.',
-  design='3/C05')
+for _f in sorted(glob.glob(os.path.join(os.path.dirname(os.path.abspath(__file__)), 'props.d', 'C*.py'))):
+    exec(compile(open(_f).read(), _f, 'exec'), {'P': P})
